@@ -98,16 +98,15 @@ def PyNum.isNum : PyNum K → Bool
   | .num _ => true
   | _ => false
 
-/-- `min_rate is None or not isinstance(min_rate, (int, float)) or not min_rate >= 0 or not min_rate <= 1` -/
-def PyNum.badRate : PyNum K → Bool
-  | .num r => !(decide (0 ≤ r)) || !(decide (r ≤ 1))
-  | _ => true
+end ML
 
-/-- `_validate_calibration_params`: `true` = accepted, `false` = `ValueError` -/
-def validateCalib (strategy : String) (minRate beta : PyNum K) : Bool :=
-  if !(strategy == "accuracy" || strategy == "f_beta" || strategy == "max_tpr" || strategy == "max_tnr") then false
-  else if (strategy == "max_tpr" || strategy == "max_tnr") && minRate.badRate then false
-  else if strategy == "f_beta" && !beta.isNum then false
-  else true
-
+namespace ML
+variable {K : Type} [Scalar K]
+def PyNum.isNone : PyNum K → Bool
+  | .none => true
+  | _ => false
+/-- the number held (only meaningful under `isNum`) -/
+def PyNum.val : PyNum K → K
+  | .num x => x
+  | _ => 0
 end ML
